@@ -15,6 +15,7 @@ pub fn run_child(job: &Job, job_file: &Path) -> Result<JobResult, String> {
         .arg("job")
         .arg(job_file)
         .env_remove("SNELDB_CONFIG")
+        .env("RAYON_NUM_THREADS", "1")
         .output()
         .map_err(|e| e.to_string())?;
     let res_path = format!("{}.out", job_file.display());
